@@ -351,7 +351,62 @@ def run_case(case, inject_k=None):
             problems.append(f"second call differs: {outcome} -> {out2}")
         if diff_snap(before, snapshot(involved)):
             problems.append("objects changed by second call")
+    if not problems:
+        problems += probe_futures(case, involved, arrs, r if outcome == "ok" else None)
     return {"outcome": outcome, "problems": problems, "ncalls": ncalls}
+
+
+PROBE_FAULTS = ("none", "ff_raise", "exc_none", "agg_argmax")  # twin-history probe; buffer flags/aliasing are checked always
+
+
+def probe_futures(case, involved, arrs, result):
+    """Differential oracle: the objects that went through the field call must have the same futures as
+    freshly built twins that did not (hidden changes: read-only or shared buffers, aliasing with the
+    caller's arrays or with the returned array). The probe is a fixed short history of in-place operations."""
+    problems = []
+    bufs = [("obj%d.position" % i, o._position) for i, o in enumerate(involved)]
+    for i, o in enumerate(involved):
+        if not o._position.flags.writeable:
+            problems.append(f"hidden change: obj{i}._position is read-only after the call")
+    ext = [a for a in arrs if isinstance(a, np.ndarray)]
+    if isinstance(result, np.ndarray):
+        ext = ext + [result]
+    for name, b in bufs:
+        for e in ext:
+            if np.shares_memory(b, e):
+                problems.append(f"hidden change: {name} shares memory with a caller/result array")
+    for (n1, b1), (n2, b2) in itertools.combinations(bufs, 2):
+        if np.shares_memory(b1, b2):
+            problems.append(f"hidden change: {n1} shares memory with {n2}")
+    if problems:
+        return problems[:3]
+    if case.get("fault") not in PROBE_FAULTS:
+        return problems
+    _, twins, _ = build_case(case)
+    if len(twins) != len(involved):
+        return ["HARNESS twin mismatch"]
+
+    def history(objs):
+        out = []
+        for o in objs:
+            try:
+                o.move((0.25, -0.5, 0.125))
+                o.rotate_from_angax(30, (1, 2, 3), anchor=(1, 0, 0))
+                o.move([(0.5, 0, 0), (0, 0.5, 0)])
+                out.append("ok")
+            except Exception as e:
+                out.append(f"{type(e).__name__}: {e}"[:80])
+        return out
+
+    h1, h2 = history(involved), history(twins)
+    if h1 != h2:
+        problems.append(f"hidden change: in-place operations after the call behave differently: {h1} vs twins {h2}")
+    else:
+        d = [x for x in diff_snap(snapshot(twins, with_style=False), snapshot(involved, with_style=False))
+             if not x.endswith(".field_func")]
+        if d:
+            problems.append("hidden change: same operations lead to different states than on fresh twins: " + ",".join(d[:4]))
+    return problems
 
 
 # ------------------------------------------------------------------ call-level injection
@@ -442,10 +497,12 @@ def enumerate_cases(tier):
         for ks in itertools.product(pool, repeat=n):
             for pl in itertools.product(plens, repeat=n):
                 lists.append(list(zip(ks, pl)))
+    if tier == "quick":  # intermediate path lengths (1 < own length < longest) also in the quick tier
+        lists += [[(k, 2)] for k in kinds] + [[(k, 2), ("cub", 3)] for k in ("cub", "col", "cus")]
     for srcs in lists:
         has_cus = sum(1 for k, _ in srcs if k == "cus")
         for obs in OBS_KINDS:
-            for obs_plen in ([1, 3] if obs in ("sensP", "sens2diff", "sensInColl", "sensMixed") else [1]):
+            for obs_plen in ([1, 2, 3] if obs == "sensP" else [1, 3] if obs in ("sens2diff", "sensInColl", "sensMixed") else [1]):
                 if len(srcs) == 3 and obs not in ("arr", "sensP"):
                     continue
                 for fault in PUBLIC_FAULTS:
